@@ -88,6 +88,11 @@ def gen_geometry(rng, D, cls):
             h = _r(10 ** rng.uniform(4, 9), 3)
             pw = _r(min(h * 0.5, 10 ** rng.uniform(0, 3)), 3)
             lb.append(-h); ub.append(h); plb.append(-pw); pub.append(pw); islog.append(False)
+        elif c == "vast":
+            # like "huge" with the ratio hard/plausible width always >= 1e7.5
+            h = _r(10 ** rng.uniform(8.5, 9.5), 3)
+            pw = _r(10 ** rng.uniform(-0.3, 1.0), 3)
+            lb.append(-h); ub.append(h); plb.append(-pw); pub.append(pw); islog.append(False)
         elif c == "log":
             # hard bounds within ~1.5 decades of the plausible ones: pybads moves the
             # plausible bounds inside lb + 1e-3*(ub-lb), so a much larger ub would
@@ -138,6 +143,17 @@ def gen_x0(rng, g, D, kind):
         cls = "on_bound"   # may be moved: treated like a possibly-moved point
         for i in range(D):
             if rng.random() < 0.5 and g["plb"][i] > g["lb"][i]:
+                x0[i] = _r(_inside(rng, g["lb"][i], g["plb"][i], g["islog"][i], 0.3), 9)
+    elif kind == "far" and g["lb"] is not None and g["plb"] is not None:
+        # every coordinate 10**6.5 .. 10**8.5 plausible widths away from the plausible box (huge hard boxes only)
+        cls = "on_bound"
+        for i in range(D):
+            wd = g["pub"][i] - g["plb"][i]
+            room = min(g["ub"][i] - g["pub"][i], g["plb"][i] - g["lb"][i])
+            if wd > 0 and room > 1e7 * wd and not g["islog"][i]:
+                m = 10 ** rng.uniform(6.5, min(8.5, math.log10(0.8 * room / wd)))
+                x0[i] = _r(0.5 * (g["plb"][i] + g["pub"][i]) + rng.choice([-1, 1]) * m * wd, 12)
+            elif rng.random() < 0.5 and g["plb"][i] > g["lb"][i]:
                 x0[i] = _r(_inside(rng, g["lb"][i], g["plb"][i], g["islog"][i], 0.3), 9)
     if g["lb"] is not None and cls == "inside":
         for i in range(D):
@@ -259,6 +275,35 @@ def gen_cons(rng, g, D, x0, kind):
         far = [a + smin * rng.uniform(0.5, 1.5) * t for a, t in zip(anchor, unit())]
         p2 = gen_cons(rng, g, D, far, "ball")
         return dict(kind="union", parts=[p1, p2])
+    if kind == "corner":
+        # half-space cutting a wedge against one finite hard-bound face: feasible points near the corner lie between
+        # the face and the plane, so moving inward from the bound makes them infeasible. Returns the corner as well
+        # (make_scenario puts the unconstrained optimum just beyond it).
+        if g["lb"] is None or D < 2 or x0 is None:
+            return gen_cons(rng, g, D, x0, "halfspace")
+        for _ in range(40):
+            i = rng.randrange(D)
+            j = rng.choice([t for t in range(D) if t != i])
+            side = rng.choice([-1, 1])
+            B = g["ub"][i] if side > 0 else g["lb"][i]
+            if not math.isfinite(B) or g["islog"][i] or g["islog"][j]:
+                continue
+            d = side * (B - anchor[i]) / scale[i]
+            if not d > 0:
+                continue
+            cc = rng.choice([-1, 1]) * rng.uniform(0.3, 1.5)
+            q = anchor[j] + (d + rng.uniform(0.05, 0.4)) * scale[j] / cc
+            if not (g["lb"][j] + 0.05 * (g["ub"][j] - g["lb"][j]) < q < g["ub"][j] - 0.05 * (g["ub"][j] - g["lb"][j])):
+                continue
+            a = [0.0] * D
+            a[i] = -side / scale[i]
+            a[j] = cc / scale[j]
+            b = a[i] * B + a[j] * q
+            corner = list(anchor)
+            corner[i], corner[j] = B, q
+            return dict(kind="halfspace", a=[_r(t, 12) for t in a], b=_r(b, 12), corner=[float(t) for t in corner],
+                        corner_out=[side * scale[i] if t == i else ((1 if cc > 0 else -1) * scale[j] if t == j else 0.0) for t in range(D)])
+        return gen_cons(rng, g, D, x0, "halfspace")
     if kind == "pinhole":
         # feasible set contains a single point of the initial search mesh (x0 itself):
         # every search candidate and every poll point is infeasible until the mesh has
@@ -386,8 +431,6 @@ def gen_options(rng, D, prof, noise_mode):
             del o["noise_size_det"]
             o["noise_size"] = _r(10 ** rng.uniform(-3, 0), 3)
         maybe("noise_size", 0.3, lambda: _r(10 ** rng.uniform(-2, 0.5), 3))
-    # threshold of the initial noise test only (documented meaning); valid, rarely set
-    maybe("tol_noise", 0.06, lambda: _choice(rng, [1e-3, 1e-5, 1e-8]))
     return o
 
 
@@ -492,6 +535,18 @@ def make_scenario(seed, profile=None, index=0):
         cons = gen_cons(rng, g, D, x0, ckind)
         cons["ret"] = "bool" if rng.random() < 0.4 else "float"
         cons["gen_kind"] = ckind
+        if cons.get("corner") is not None:
+            # unconstrained optimum just beyond the corner (outside the bound, on the infeasible side of the plane)
+            co, out = cons.pop("corner"), cons.pop("corner_out")
+            t1, t2 = rng.uniform(0.05, 0.5), rng.uniform(0.05, 0.5)
+            cen = [co[t] + (t1 if abs(out[t]) > 0 and cons["a"][t] * out[t] < 0 else t2) * out[t] for t in range(D)]
+            if scn["target"]["family"] in ("quad", "abs"):
+                scn["target"]["c"] = [_r(v, 9) for v in cen]
+            elif scn["target"]["family"] == "linear":
+                pl_ = g["plb"] if g["plb"] is not None else g["lb"]
+                pu_ = g["pub"] if g["pub"] is not None else g["ub"]
+                nrm = max(sum(((cen[u] - x0[u]) / (pu_[u] - pl_[u])) ** 2 for u in range(D)), 1e-300) ** 0.5
+                scn["target"]["g"] = [_r(-((cen[t] - x0[t]) / (pu_[t] - pl_[t])) / nrm / (pu_[t] - pl_[t]), 6) for t in range(D)]
         if rng.random() < prof.get("gate_p", 0.0):
             # search-step outcome script: A = candidates judged by the region, R = every candidate batch rejected
             if rng.random() < 0.5:
@@ -575,4 +630,7 @@ def make_scenario(seed, profile=None, index=0):
             scn["fstar"] = scn["fstar"] * mul
         scn["options"].pop("noise_size", None)
         scn["options"]["max_fun_evals"] = min(int(scn["options"].get("max_fun_evals", 40)), 40)
+    # threshold of the initial noise test only (documented meaning); valid, rarely set (same own stream)
+    if mrng.random() < prof.get("knobs", {}).get("tol_noise", 0.06):
+        scn["options"]["tol_noise"] = _choice(mrng, [1e-3, 1e-5, 1e-8])
     return scn
